@@ -268,7 +268,8 @@ class GroupStatusDecoder(
 
     def _decode_temperature(self, has_sensor: bool, byte56: int) -> Optional[float]:  # noqa: FBT001
         encoded_temperature = byte56 & 0xFFE0
-        if not has_sensor or encoded_temperature == _TEMP_UNAVAILABLE:
+        # The temperature is not available when byte 5 is 0xFF, whatever the low bits.
+        if not has_sensor or (byte56 & _TEMP_UNAVAILABLE) == _TEMP_UNAVAILABLE:
             return None
         return utils.decode_temperature(encoded_temperature)
 
